@@ -183,8 +183,13 @@ class Stalled(Exception):
 EXTRA_ENV = {}
 
 
+TB_BIN = [None]  # binary serving the Tier B legs when it is not the property's own
+
+
 def replay_once(binpath, scratch, rf, want_log=False, timeout=120):
     """Run one replay file in a fresh process. Returns (result or None, crashed, stderr, decisions)."""
+    if TB_BIN[0] and is_tierb(rf.get("leg", "")):
+        binpath = TB_BIN[0]
     tag = hashlib.sha1(json.dumps(rf["decisions"]).encode()).hexdigest()[:12] + ("-%d" % os.getpid()) + ("-%d" % int(time.time() * 1e6))
     rp = os.path.join(scratch, "rp-%s.json" % tag)
     outp = os.path.join(scratch, "rp-%s.out" % tag)
@@ -361,6 +366,11 @@ def _main(args, prop, cfg, tier, seed0, t0, scratch):
     build.prepare(scratch, instrument=cfg.get("instrument", True))
     binpath = os.path.join(scratch, cfg["pkg"] + ".test")
     bt = build.build_test(scratch, cfg["pkg"], binpath, use_overlay=cfg.get("overlay", True), race=cfg.get("race", False))
+    tbpkg = (cfg.get("tierb") or {}).get("pkg")
+    if tbpkg and tbpkg != cfg["pkg"]:
+        # the Tier B legs of this property live in another simulation package
+        TB_BIN[0] = os.path.join(scratch, tbpkg + ".test")
+        bt += build.build_test(scratch, tbpkg, TB_BIN[0], use_overlay=cfg.get("overlay", True))
     log("built %s in %.1fs (tree %s)" % (cfg["pkg"], bt, build.tree_fingerprint()))
     legs = args.legs.split(",") if args.legs else cfg["legs"]
 
@@ -411,7 +421,7 @@ def _main(args, prop, cfg, tier, seed0, t0, scratch):
     if tb_legs:
         n2 = args.runs if (args.runs and args.legs) else (tb or {"runs": {tier: total}})["runs"][tier]
         b2 = (tb or {"budget": {tier: budget}})["budget"][tier]
-        r2, c2, t2 = run_batch(binpath, scratch, prop, tier, seed0, n2, tb_legs, b2, extra_env=cfg.get("env"), one_per_process=True, stall_s=240)
+        r2, c2, t2 = run_batch(TB_BIN[0] or binpath, scratch, prop, tier, seed0, n2, tb_legs, b2, extra_env=cfg.get("env"), one_per_process=True, stall_s=240)
         for c in c2:
             c["legs"] = tb_legs
         results += r2
